@@ -16,6 +16,8 @@
 #include "parsec/data_dist/matrix/sbc.h"
 #include <mpi.h>
 #include <dlfcn.h>
+#include <signal.h>
+#include <unistd.h>
 #include "seqx.h"
 
 enum { D_BC = 0, D_SBCL = 1, D_SBCU = 2 };
@@ -205,6 +207,40 @@ static int run_case(mat_t *Y, mat_t *T, const win_t *w, stat_t *st, char *msg, s
     return bad;
 }
 
+/* deadline: rank 0's clock decides (broadcast); single process: looked at every 256 cases */
+static int deadline_cut(int force)
+{
+    static unsigned cnt = 0; int cut = 0;
+    if (sx_deadline <= 0) return 0;
+    if (world == 1) { if (!force && (++cnt & 255)) return 0; return sx_now() > sx_deadline; }
+    if (myrank == 0) cut = sx_now() > sx_deadline;
+    MPI_Bcast(&cut, 1, MPI_INT, 0, MPI_COMM_WORLD);
+    return cut;
+}
+/* a crash (assert / SIGSEGV) inside the library while a valid case runs is reported as a violation of that case */
+static const mdesc_t *cur_y, *cur_t; static const win_t *cur_w; static const char *cur_tag;
+static void crash_handler(int sig)
+{
+    char cs[512], msg[128];
+    if (cur_w) {
+        case_str(cs, sizeof(cs), cur_y, cur_t, cur_w);
+        snprintf(msg, sizeof(msg), "rank %d: the library crashed with signal %d while redistributing a valid window (path=%s)", myrank, sig, last_tp_name);
+        sx_violation(cur_tag, cs, msg);
+        sx_report(cur_tag, 0, 0, 0, 0, 0, 0, 1, 0.0, "\"crashed\":true", NULL, 0);
+        sx_finish();
+        _exit(1);
+    }
+    signal(sig, SIG_DFL); raise(sig);
+}
+static const char *outcome_file = NULL, *skip_pairs = NULL;   /* skip_pairs: e.g. "bc-to-bc," : (source,target) distribution pairs left to another invocation */
+static void dump_outcomes(const char *tag, const sx_set_t *s)
+{
+    if (!outcome_file || myrank) return;
+    FILE *f = fopen(outcome_file, "a"); if (!f) return;
+    for (size_t i = 0; i < s->cap; i++) if (s->v[i].a || s->v[i].b) fprintf(f, "%s %016llx\n", tag, (unsigned long long)s->v[i].a);
+    fclose(f);
+}
+
 static int disp_ok(int reduced, int d, int maxd) { return !reduced || d == 0 || d == maxd || d == maxd / 2; }
 
 static void run_pair(const box_t *b, int yd, int td, const char *tag)
@@ -223,9 +259,7 @@ static void run_pair(const box_t *b, int yd, int td, const char *tag)
         if (yd != D_BC && (gy || ky)) continue;
         if (td != D_BC && (gt || kt)) continue;
         if ((cfg++ % b->nshards) != b->shard) continue;
-        int cut = (sx_deadline > 0 && sx_now() > sx_deadline);
-        if (world > 1) MPI_Bcast(&cut, 1, MPI_INT, 0, MPI_COMM_WORLD);
-        if (cut) { st.exhaustive = 0; stop = 1; break; }
+        if (deadline_cut(1)) { st.exhaustive = 0; stop = 1; break; }
         mat_t Y, T;
         if (mat_init(&Y, y, "dcY") || mat_init(&T, t, "dcT")) { fprintf(stderr, "C21: descriptor init failed\n"); exit(2); }
         mat_fill(&Y, 0);
@@ -239,7 +273,10 @@ static void run_pair(const box_t *b, int yd, int td, const char *tag)
         for (int jT = 0; jT + sc <= NR && !stop; jT++) { if (!disp_ok(b->reduced, jT, NR - sc)) continue;
             if (!win_stored(&t, sr, sc, iT, jT)) continue;
             win_t w = { sr, sc, iY, jY, iT, jT };
+            if (deadline_cut(0)) { st.exhaustive = 0; stop = 1; break; }
+            cur_y = &y; cur_t = &t; cur_w = &w; cur_tag = tag;
             int bad = run_case(&Y, &T, &w, &st, msg, sizeof(msg), 0);
+            cur_w = NULL;
             if (bad || (st.nsamples < 3 && (st.cases == 7 || st.cases == 1500 || st.cases == 40000))) {
                 case_str(cs, sizeof(cs), &y, &t, &w);
                 if (!bad) snprintf(st.samples[st.nsamples++], 512, "%s path=%s", cs, last_tp_name);
@@ -260,6 +297,7 @@ static void run_pair(const box_t *b, int yd, int td, const char *tag)
                  st.configs, st.reshuffle, st.general, st.unaligned, st.multi_src_tiles, st.multi_tgt_tiles, st.elems, world, b->shard, b->nshards);
         sx_report(tag, st.cases, st.elems, st.cases, st.nontrivial, (long)st.outcomes.n, st.exhaustive, st.violations, sx_now() - t0, extra, sp, st.nsamples);
     }
+    dump_outcomes(tag, &st.outcomes);
     free(st.outcomes.v);
 }
 
@@ -296,6 +334,8 @@ int main(int argc, char **argv)
         else if (!strcmp(argv[i], "--grids") && i + 1 < argc) grids = argv[++i];
         else if (!strcmp(argv[i], "--reduced")) b.reduced = 1;
         else if (!strcmp(argv[i], "--shard") && i + 1 < argc) { sscanf(argv[++i], "%d/%d", &b.shard, &b.nshards); }
+        else if (!strcmp(argv[i], "--outcomes") && i + 1 < argc) outcome_file = argv[++i];
+        else if (!strcmp(argv[i], "--skip") && i + 1 < argc) skip_pairs = argv[++i];
         else if (!strcmp(argv[i], "--json") && i + 1 < argc) json = argv[i + 1];
     }
     if (grids) { int v[16]; int n = parse_list(grids, v, 16); for (int i = 0; i + 1 < n; i += 2) { b.grids[b.ngrids][0] = v[i]; b.grids[b.ngrids][1] = v[i + 1]; b.ngrids++; } }
@@ -307,6 +347,10 @@ int main(int argc, char **argv)
     (void)json;
     sx_init(argc, argv, "C21");
 
+    /* timing knobs only: do not pin every process' worker to core 0; let the communication thread yield when idle */
+    setenv("PARSEC_MCA_bind_threads", "0", 0);
+    if (world > 1) setenv("PARSEC_MCA_runtime_comm_thread_yield", "2", 0);
+    signal(SIGSEGV, crash_handler); signal(SIGABRT, crash_handler); signal(SIGBUS, crash_handler); signal(SIGFPE, crash_handler);
     int pargc = 1; char *pargv_s[2] = { argv[0], NULL }; char **pargv = pargv_s;
     parsec = parsec_init(1, &pargc, &pargv);
     if (!parsec) { fprintf(stderr, "C21: parsec_init failed\n"); return 2; }
@@ -332,6 +376,8 @@ int main(int argc, char **argv)
     } else {
         for (int i = 0; i < b.nyd; i++) for (int j = 0; j < b.ntd; j++) {
             char tag[64]; snprintf(tag, sizeof(tag), "np%d-%s-to-%s%s", world, dist_name[b.ydists[i]], dist_name[b.tdists[j]], b.reduced ? "-reduced" : "");
+            char pr[32]; snprintf(pr, sizeof(pr), "%s-to-%s,", dist_name[b.ydists[i]], dist_name[b.tdists[j]]);
+            if (skip_pairs && strstr(skip_pairs, pr)) continue;
             run_pair(&b, b.ydists[i], b.tdists[j], tag);
         }
     }
